@@ -6,7 +6,11 @@ package main
 // Trim* / Has* / Split / ToLower / ToUpper. Part of suite C09 (kinds gosem-*).
 
 import (
+	"bufio"
+	"bytes"
 	"fmt"
+	"regexp"
+	"strconv"
 	"strings"
 
 	"verifharness/h"
@@ -68,7 +72,65 @@ func goSemCases(cx *ctx) {
 				}
 				return "0"
 			}
-			switch rr2.Intn(9) {
+			switch rr2.Intn(12) {
+			case 9:
+				ws := []string{"5", "05", "+5", "-5", "", "18", "9223372036854775807", "9223372036854775808", "-9223372036854775808", "-9223372036854775809",
+					"18446744073709551621", "1_0", "0x10", " 5", "5 ", "٥", "+", "-", "00", "1e1", "123456789012345678901234567890"}
+				w := ws[rr2.Intn(len(ws))]
+				if rr2.Intn(3) == 0 {
+					w = fmt.Sprint(rr2.Intn(1 << 20))
+				}
+				v, err := strconv.Atoi(w)
+				st := "ok"
+				if err != nil {
+					st = "err"
+				}
+				return &h.Case{Kind: "gosem-atoi", Line: "goatoi " + hx(w), Impl: fmt.Sprintf("%d %s", v, st), NonTrivial: true, Note: fmt.Sprintf("%q", w)}
+			case 10:
+				pats := []string{`^[1-9][0-9]*$`, `^[0-9]*$`, `^a*b$`, `^[a-cx]y*z*$`, `^$`, `^abc$`, `^[A-Z][a-z]*[0-9]$`}
+				pat := pats[rr2.Intn(len(pats))]
+				alph := "0123456789abcxyzAZ+- \n"
+				var w []byte
+				for i := rr2.Intn(6); i > 0; i-- {
+					w = append(w, alph[rr2.Intn(len(alph))])
+				}
+				if rr2.Intn(4) == 0 {
+					w = []byte(s)
+				}
+				return &h.Case{Kind: "gosem-regexp", Line: "gorematch " + hx(pat) + " " + h.Hex(w), Impl: bit(regexp.MustCompile(pat).MatchString(string(w))), NonTrivial: true,
+					Note: fmt.Sprintf("%s on %q", pat, w)}
+			case 11:
+				var b []byte
+				for i := rr2.Intn(8); i > 0; i-- {
+					const al = "ab\n\n\r\r #k"
+					b = append(b, al[rr2.Intn(len(al))])
+				}
+				if rr2.Intn(40) == 0 {
+					b = append(bytes.Repeat([]byte{'k'}, 65535+rr2.Intn(3)), b...)
+				}
+				sc := bufio.NewScanner(bytes.NewReader(b))
+				var toks []string
+				for sc.Scan() {
+					if sc.Text() == "" {
+						toks = append(toks, "e")
+					} else {
+						toks = append(toks, h.Hex([]byte(sc.Text())))
+					}
+				}
+				ts := strings.Join(toks, ",")
+				if ts == "" {
+					ts = "-"
+				}
+				impl := ts + " err=" + bit(sc.Err() != nil)
+				if len(impl) > 300 {
+					impl = h.Sum([]byte(impl))
+				}
+				return &h.Case{Kind: "gosem-scanner", Line: "goscan " + h.Hex(b), Impl: impl, NonTrivial: true, Canon: func(m string) string {
+					if len(m) > 300 {
+						return h.Sum([]byte(m))
+					}
+					return m
+				}}
 			case 0:
 				impl := "opaque"
 				if ascii(s) {
